@@ -85,6 +85,8 @@ impl Default for KeyInfo {
 pub struct Viol {
     pub clause: &'static str,
     pub detail: String,
+    /// refinement of the clause that is part of a finding's identity (may be empty)
+    pub tag: String,
 }
 
 /// What the harness observed for one command.
